@@ -30,7 +30,8 @@
 #define MAXTXT 8192
 
 static const enum asm_opt MOVS[3] = {STRICT, NASM, SMART};
-static const char *CTXS[] = {"solo0", "solo37", "first", "mid", "last"};
+static const char *CTXS[] = {"solo0", "solo37", "first", "mid", "last", "edge"};   /* edge: alone, starting on the last byte of a chunk */
+#define NCTX 6
 static const char *MODES[] = {"plain", "fit", "count"};
 
 struct outcome {
@@ -45,7 +46,7 @@ static void on_filtered(const char *in, const char *out, int j, int ret) { (void
 static void on_idx(int site, int idx, int cap) { (void)cap; if (site == 1 && idx > g_ho) g_ho = idx; if (site == 2 && idx > g_hr) g_hr = idx; if (site == 3 && idx > g_hx) g_hx = idx; }
 
 static unsigned char *arena; /* CANARY | CAP | CANARY, RWX */
-static int want_ctx[5], want_mode[3], optsel = 0, chunk = 8;
+static int want_ctx[NCTX], want_mode[3], optsel = 0, chunk = 8;
 
 static void set_opts(assemblyline_t al, int oi) {
   asm_mov_imm(al, MOVS[oi / 4]);
@@ -90,7 +91,7 @@ static void do_run(const char *text, int oi, int ctx, int mode, int exec, struct
   static unsigned char a[CAP + 2 * CANARY], b[CAP + 2 * CANARY];
   static char prog[MAXTXT + 64];
   const char *prefix = "", *suffix = "";
-  int off0 = ctx == 1 ? 37 : 0;
+  int off0 = ctx == 1 ? 37 : ctx == 5 ? chunk - 1 : 0;
   if (ctx == 2) suffix = "nop\nret\n";
   if (ctx == 3) { prefix = "nop\n"; suffix = "ret\n"; }
   if (ctx == 4) prefix = "nop\nnop\n";
@@ -151,7 +152,7 @@ static void emit_job(FILE *out, const char *id, const char *text, int exec) {
   int n = 0;
   n += snprintf(line + n, sizeof line - n, "{\"id\":\"%s\",\"runs\":[", id);
   int first = 1;
-  for (int c = 0; c < 5; c++) {
+  for (int c = 0; c < NCTX; c++) {
     if (!want_ctx[c]) continue;
     for (int m = 0; m < 3; m++) {
       if (!want_mode[m]) continue;
@@ -215,7 +216,7 @@ int main(int argc, char **argv) {
   for (int i = 1; i < argc; i++) {
     if (!strcmp(argv[i], "--ctx") && i + 1 < argc) {
       memset(want_ctx, 0, sizeof want_ctx);
-      for (int c = 0; c < 5; c++) if (strstr(argv[i + 1], CTXS[c])) want_ctx[c] = 1;
+      for (int c = 0; c < NCTX; c++) if (strstr(argv[i + 1], CTXS[c])) want_ctx[c] = 1;
       i++;
     } else if (!strcmp(argv[i], "--modes") && i + 1 < argc) {
       memset(want_mode, 0, sizeof want_mode);
